@@ -102,7 +102,17 @@ pub fn gen_pair(ch: &mut Chooser) -> Pair {
     let (mut ia, mut ib) = (0, 0);
     let mut schedule = vec![];
     // scripted openings: the situations in which per-thread or per-process state would be confused
-    match ch.below(15) {
+    match ch.below(16) {
+        15 => {
+            // A prints empty and other vectors and drops them; the vectors B prints next are new objects (possibly at the
+            // addresses of A's)
+            a.splice(0..0, ["@display:(vector)", "@display:(list (make-vector 0 7) (vector))", "@display:(car (vector))", "@display:(vector (vector) 1)"].iter().map(|t| t.to_string()));
+            b.splice(0..0, ["@display:(vector 1 2 3)", "@display:(list (vector 1) (vector) (make-vector 2 'x))", "@display:(vector-ref (vector 4 5) 2)", "@display:(vector (vector 6) 7)"].iter().map(|t| t.to_string()));
+            schedule.extend([true, false, true, false, true, false, true, false]);
+            ia = 4;
+            ib = 4;
+            labels.push("both-print-vectors");
+        }
         13 => {
             // a string literal in A that ends in a lexical error; B's next string literals follow directly
             a.insert(0, (*ch.pick(&["(display \"abc\\qdef\")", "(list \"left over \\x;\")", "(define s \"never closed"])).to_string());
@@ -294,6 +304,18 @@ fn same(a: &Outcome, b: &Outcome) -> bool {
     }
 }
 
+/// one form through an instance; "@display:TEXT" observes the printed text of the value (or of the error message)
+fn eval_step(s: &mut Session, f: &str) -> Outcome {
+    match f.strip_prefix("@display:") {
+        Some(text) => match s.eval_display(text) {
+            Ok(Some(t)) => Outcome::Value(crate::sut::SVal::Str(t)),
+            Ok(None) => Outcome::NoValue,
+            Err(e) => Outcome::Value(crate::sut::SVal::Str(format!("error: {}", e))),
+        },
+        None => s.eval(f),
+    }
+}
+
 /// B alone on a fresh thread
 fn run_alone(b: Vec<String>) -> Vec<Outcome> {
     sut::in_thread(move || {
@@ -301,7 +323,7 @@ fn run_alone(b: Vec<String>) -> Vec<Outcome> {
             Ok(s) => s,
             Err((site, msg)) => return vec![Outcome::Panic { site, msg }],
         };
-        b.iter().map(|f| if f == "@file" { run_file_step(&mut s, "b", 7) } else { s.eval(f) }).collect()
+        b.iter().map(|f| if f == "@file" { run_file_step(&mut s, "b", 7) } else { eval_step(&mut s, f) }).collect()
     })
 }
 
@@ -358,10 +380,10 @@ fn run_interleaved(p: Pair, skip_a_syntax: bool) -> Interleaved {
                     sa.budget = saved;
                     continue;
                 }
-                let _ = sa.eval(f);
+                let _ = eval_step(&mut sa, f);
             } else {
                 let f = &p.b[ib];
-                out.b.push(if f == "@file" { run_file_step(&mut sb, "b", 7) } else { sb.eval(f) });
+                out.b.push(if f == "@file" { run_file_step(&mut sb, "b", 7) } else { eval_step(&mut sb, f) });
                 ib += 1;
             }
         }
